@@ -667,6 +667,10 @@ func (x *Executor) applyContract(fr *Frame, st *State, reach string, con *Contra
 	}
 	env2 := &Env{x: x, u: u, vars: vars, bound: map[string]Val{}, st: st, old: pre, pkg: cpkg}
 	for _, en := range con.Ensures {
+		if exprMentionsFn(en.E, "called", "result", "arg") {
+			// a statement about the callee's own calls: proved inside the callee, nothing a caller can use
+			continue
+		}
 		t, err := env2.Eval(en.E)
 		if err != nil && !con.Trusted && x.mentionsCalleeLocal(con, en.E) {
 			// a postcondition stated over the callee's own locals is proved inside the callee and
@@ -1154,7 +1158,11 @@ func (x *Executor) execBuiltin(fr *Frame, st *State, reach string, b *ssa.Builti
 				return Val{T: fmt.Sprintf("%d", at.Len()), Ty: intT}
 			}
 		case *types.Chan:
-			u.unsupported("len of channel")
+			// what a channel holds is decided by other goroutines: an arbitrary non-negative number
+			u.notes[chanNote] = true
+			r := u.freshConst("chanlen", "Int")
+			u.assume(fmt.Sprintf("(and (<= 0 %s) (<= %s %s))", r, r, maxSliceLen))
+			return Val{T: r, Ty: intT}
 		}
 	case "append":
 		return x.execAppend(fr, st, reach, args, resTy)
@@ -1176,7 +1184,8 @@ func (x *Executor) execBuiltin(fr *Frame, st *State, reach string, b *ssa.Builti
 		u.unsupported("recover")
 		return x.freshResult(st, resTy, false)
 	case "close":
-		u.unsupported("close of channel")
+		// closing a channel is a hand-off like the other channel operations (double close not modelled)
+		u.notes[chanNote] = true
 		return Val{T: "0", Ty: resTy}
 	case "ssa:deferstack":
 		return Val{T: "0", Ty: resTy}
